@@ -280,6 +280,34 @@ def parse_map(repo=REPO):
     return names
 
 
+def _normalise_boolean_searches(fn):
+    """strrchr(s, c) / rindex(s, c) used only as a truth value (`!= NULL`, `!`, a condition) answers the same question as strchr(s, c):
+    "does c occur in s".  The call is read as strchr() so that membership tests are recognised in either spelling."""
+    for n in fn.nodes:
+        if n is None or n.k != "CallExpr" or n.j.get("callee") not in ("strrchr", "rindex"):
+            continue
+        up = n.parent
+        while up is not None and up.k in ("ParenExpr", "ImplicitCastExpr", "CStyleCastExpr"):
+            up = up.parent
+        boolean = False
+        if up is not None and up.k == "BinaryOperator" and up.j.get("op") in ("==", "!="):
+            other = [c for c in up.children if not (n is c or n.within(c))]
+            boolean = bool(other) and other[0].is_null_const()
+        elif up is not None and up.k == "UnaryOperator" and up.j.get("op") == "!":
+            boolean = True
+        elif up is not None and up.k == "BinaryOperator" and up.j.get("op") in ("&&", "||"):
+            boolean = True
+        elif up is not None and up.k in ("IfStmt", "WhileStmt", "DoStmt", "ForStmt", "ConditionalOperator") and up.child("cond") is not None and (
+                n is up.child("cond") or n.within(up.child("cond"))):
+            boolean = True
+        if boolean:
+            n.j["callee"] = "strchr" if n.j["callee"] == "strrchr" else "index"
+            for c in n.children[:1]:
+                for x in c.walk():
+                    if x.k == "DeclRefExpr" and x.j.get("dk") == "func" and x.j.get("name") in ("strrchr", "rindex"):
+                        x.j["name"] = n.j["callee"]
+
+
 class Program:
     """Whole-program index over the extracted units."""
 
@@ -362,6 +390,7 @@ class Program:
             except Exception:
                 pass
             fn = Function(fj, rel, self)
+            _normalise_boolean_searches(fn)
             if fn.name in ftab:
                 other = ftab[fn.name]
                 if other.is_static and fn.is_static and other.file != fn.file and os.path.basename(fn.file).endswith(".h"):
